@@ -707,7 +707,22 @@ func (st *Runtime) evalPrimaryExpressionGroup(node Expression) reflect.Value {
 		return resolved
 	case NodeSliceExpr:
 		node := node.(*SliceExprNode)
-		baseExpression := st.evalPrimaryExpressionGroup(node.Base)
+		baseExpression, isNil := indirect(st.evalPrimaryExpressionGroup(node.Base))
+		if !baseExpression.IsValid() || isNil {
+			node.errorf("can't slice a nil value")
+		}
+		switch baseExpression.Kind() {
+		case reflect.Slice, reflect.String:
+		case reflect.Array:
+			if !baseExpression.CanAddr() {
+				// reflect can only slice addressable arrays
+				addressable := reflect.New(baseExpression.Type()).Elem()
+				addressable.Set(baseExpression)
+				baseExpression = addressable
+			}
+		default:
+			node.errorf("can't slice a value of type %s", baseExpression.Type())
+		}
 
 		var index, length int
 		if node.Index != nil {
@@ -730,6 +745,9 @@ func (st *Runtime) evalPrimaryExpressionGroup(node Expression) reflect.Value {
 			length = baseExpression.Len()
 		}
 
+		if index < 0 || index > length || length > baseExpression.Len() {
+			node.errorf("slice bounds out of range [%d:%d] with length %d", index, length, baseExpression.Len())
+		}
 		return baseExpression.Slice(index, length)
 	}
 	return st.evalBaseExpressionGroup(node)
